@@ -22,6 +22,7 @@ func init() {
 			{"ct-media", "media part extension = registered content-type default extension (same symbolic source)", ruleCTMedia},
 			{"save-complete", "Save and ToBytes run the same regeneration sequence incl. content types and relationships", ruleSaveSibling},
 			{"clone-alias", "a rendered document does not share its content-type lists with the template (mutability-aware alias analysis of cloneDocument)", ruleCloneAliasFor("ContentTypes", "Document")},
+			{"save-truncate", "the target file is created/truncated, never opened for in-place overwrite", ruleSaveTruncate},
 		},
 		Assumptions: append([]string{"encoding/xml escapes text and attribute values and replaces invalid characters"}, commonAssumptions...),
 	}
@@ -70,6 +71,8 @@ func init() {
 		Rules: []Rule{
 			{"save-err/save-close", "error discipline and must-pass-through of checked Close on success paths (CFG)", ruleSaveErr},
 			{"save-sibling", "sibling agreement of the two save entry points", ruleSaveSibling},
+			{"save-verbatim", "each part is written with exactly the bytes of the part map", ruleSaveVerbatim},
+			{"save-truncate", "the target file is created/truncated, never opened for in-place overwrite", ruleSaveTruncate},
 		},
 		Assumptions: commonAssumptions,
 	}
